@@ -59,12 +59,14 @@ CFGS = {
     "B": (1.0, 1000.0, 0.5, 500.0),
     "C": (0.5, 125.0, 0.0, 0.0),
     "D": (0.5, 125.0, 0.75, 250.0),
+    # 1 s x 1 Hz bins with the time axis starting at 2 s: the same NUMBER is a time in one bin and a frequency in another
+    "E": (1.0, 1.0, 2.0, 0.0),
 }
 ORDERS = ("ft", "tf")  # frequency first (the layout of the repository's docs) / time first
 
 OPT_AXES = [
-    Axis("cfg", ("A", "B", "C", "D")),
-    Axis("values", ("list", "scalar", "tuple", "omit", "short", "long", "repeat")),
+    Axis("cfg", ("A", "B", "C", "D", "E")),
+    Axis("values", ("list", "scalar", "tuple", "omit", "short", "long", "repeat", "hole")),
     Axis("fill", (0, -1)),
     Axis("dtype", ("float32", "int16", "float64")),
     Axis("contents", ("g1", "g2")),
@@ -94,7 +96,7 @@ def below_ok(cfg):
 
 
 def box_full_cfgs(tier):
-    return ("D",) if tier == "quick" else ("A", "B", "C", "D")
+    return ("D",) if tier == "quick" else ("A", "B", "C", "D", "E")
 
 
 def box_cases(tier):
@@ -108,7 +110,7 @@ def box_cases(tier):
                 for a, b in tp:
                     for c, d in fp:
                         yield {"sp": "box", "t": [nt, nf, order, cfg], "g": [["box", [a, c, b, d]]]}
-    for cfg in ("A", "B", "C", "D"):
+    for cfg in ("A", "B", "C", "D", "E"):
         if cfg in full:
             continue
         # deviation-bounded: boxes that leave the full-span box on at most one axis
@@ -142,7 +144,7 @@ def tri_cases(tier):
 
 
 def misc_cases(tier):
-    cfgs = ("A", "D") if tier == "quick" else ("A", "B", "C", "D")
+    cfgs = ("A", "D", "E") if tier == "quick" else ("A", "B", "C", "D", "E")
     for cfg in cfgs:
         bt, bf = below_ok(cfg)
         for nt, nf in sizes(max_size(tier)):
@@ -274,17 +276,17 @@ def bounds(tier):
         "edge_positions": "bin units, multiples of 1/2 from -1/2 (where the coordinate stays >= 0) to n + 1/2",
         "FULL box": "single BoundingBox: size x order x cfg in %s x every pair of edge positions on the time axis x every "
                     "pair on the frequency axis x all_touched" % (list(box_full_cfgs(tier)),),
-        "DEVIATION box": ("cfg in [A, B, C]: boxes leaving the full-span box on at most one axis (every edge pair on that "
+        "DEVIATION box": ("cfg in [A, B, C, E]: boxes leaving the full-span box on at most one axis (every edge pair on that "
                           "axis) x size x order x all_touched" if q else "none (all four configurations are full products)"),
         "FULL tri": "single Polygon triangles, every 3-subset of the (nt+1)(nf+1) lattice points, x size x order x "
                     "all_touched for (cfg, shift, max size) in %s" % (tri_plan(tier),),
         "FULL misc": "cfg in %s x size x order x all_touched x {4-vertex rectangle polygons (integer and half-shifted; those reaching the template's far edges also as 48- and 160-vertex outlines), "
                      "full-template rectangles with every integer (and quarter-widened) rectangular hole as Polygon and as 1- and 2-part MultiPolygon (sizes >= 3x3), "
                      "time intervals (all edge pairs), time stamps (all positions), points (all positions^2), 2-point "
-                     "line strings over 6 anchor points}" % (["A", "D"] if q else ["A", "B", "C", "D"]),
+                     "line strings over 6 anchor points}" % (["A", "D", "E"] if q else ["A", "B", "C", "D", "E"]),
         "FULL list": "every ordered list (with repetition, hence both orders of every pair) of length 0..%d over the "
                      "10-geometry pool x size {1..4}^2 x order x all_touched, at the default options" % (2 if q else 3),
-        "DEVIATION list options": "option axes cfg{A,B,C,D}, values{list,scalar,tuple,omit,short,long}, fill{0,-1}, "
+        "DEVIATION list options": "option axes cfg{A,B,C,D}, values{list,scalar,tuple,omit,short,long,repeat,hole = every second geometry burns the fill value}, fill{0,-1}, "
                                   "dtype{float32,int16,float64 with values that float32 cannot represent}, contents{g1,g2}: every assignment within %s of the default "
                                   "(A, list, 0, float32, g1), each x the same full list product x order x all_touched x "
                                   "size %s" % (("1 deviation", "{1..3}^2") if q else
@@ -405,6 +407,8 @@ def _values_of(mode, n, LIST_VALUES, SCALAR_VALUE):
         # interleaved repeat a, b, a, ...: burning geometries grouped by value would lose the overwrite order
         vals = [LIST_VALUES[i % 2] for i in range(n)]
         return vals, vals
+    if mode == "hole":
+        return LIST_VALUES[:n], LIST_VALUES[:n]  # replaced by the caller, which knows the fill value
     if mode == "short":
         return LIST_VALUES[:n - 1], None
     if mode == "long":
@@ -452,6 +456,10 @@ def run_case(case, singles=None):
     if opts:
         fill, dtype = opts["fill"], opts["dtype"]
         arg, vals = values_of(opts["values"], n, dtype)
+        if opts["values"] == "hole":
+            # every second geometry burns the FILL value (punching a hole into what earlier geometries marked)
+            vals = [fill if i % 2 else v for i, v in enumerate(values_of("list", n, dtype)[1])]
+            arg = list(vals)
         if arg is not None:
             base_kw["values"] = arg
         base_kw["fill"] = fill
@@ -565,7 +573,8 @@ def run_case(case, singles=None):
                 skey = (tkey, fill, dtype, at, repr(spec))
                 mask = singles.get(skey) if singles is not None else None
                 if mask is None:
-                    kw1 = dict(all_touched=at, fill=fill, dtype=getattr(np, dtype), values=[v])
+                    # the footprint of one geometry is read from a raster burnt with a value other than the fill value
+                    kw1 = dict(all_touched=at, fill=fill, dtype=getattr(np, dtype), values=[v if v != fill else fill + 1])
                     r1 = call([g], tpl, kw1)
                     calls += 1
                     untouched_check({"fn": FN, "kind": layout})
@@ -586,7 +595,10 @@ def run_case(case, singles=None):
             else:
                 out.vac("later_overwrites")
 
-    if False in marked and True in marked:
+    if vals is not None and any(v == fill for v in vals):
+        # a geometry that burns the fill value un-marks cells: 'all_touched marks a superset' is not a statement about such lists
+        out.vac("all_touched_superset")
+    elif False in marked and True in marked:
         # not a verdict: expose in the outcome histogram whether all_touched added anything at all
         cat = "%s+%s" % (cat, "at_adds" if bool((marked[True] & ~marked[False]).any()) else "at_same")
         out.expect("all_touched_superset", bool((marked[True] | ~marked[False]).all()),
